@@ -508,12 +508,12 @@ theorem gtr_Q_rows_reversible_meanrate (d f b e a' c' a c g t : ℝ) (hd : 0 < d
 /-- `F81Model.InitModel(π)` builds the same matrix as `GTRModel.InitModel` with all six rates `1` -/
 theorem f81_is_gtr (a c g t : ℝ) : f81Q a c g t = gtrQ 1 1 1 1 1 1 a c g t := by
   ext i j
-  fin_cases i <;> fin_cases j <;> simp [f81Q, gtrQ, F81Model_InitModel, GTRModel_InitModel]
+  fin_cases i <;> fin_cases j <;> simp [f81Q, gtrQ, F81Model_InitModel, GTRModel_InitModel] <;> ring
 
 /-- `TN93Model.InitModel(κ1, κ2, π)` builds the same matrix as `GTRModel.InitModel(1, κ1, 1, 1, κ2, 1, π)` -/
 theorem tn93_is_gtr (κ1 κ2 a c g t : ℝ) : tn93Q κ1 κ2 a c g t = gtrQ 1 κ1 1 1 κ2 1 a c g t := by
   ext i j
-  fin_cases i <;> fin_cases j <;> simp [tn93Q, gtrQ, TN93Model_InitModel, GTRModel_InitModel]
+  fin_cases i <;> fin_cases j <;> simp [tn93Q, gtrQ, TN93Model_InitModel, GTRModel_InitModel] <;> ring
 
 private theorem exGTR_symm (d f b e a' c' : ℝ) (i j : Fin 4) :
     exGTR d f b e a' c' i.val j.val = exGTR d f b e a' c' j.val i.val := by
